@@ -21,6 +21,9 @@ type c01Case struct {
 	PlatSerial uint16   `json:"platform_serial"`
 	Body       kit.Hex  `json:"body"`
 	Steer      string   `json:"checksum_steered_to"`
+	// Recycled: the message object that decodes the source frame decoded another frame before (1: a 2019 frame with a
+	// 10-byte phone full of escapes, 2: a fragmented 2019 frame) - servers and pools re-use message values
+	Recycled int `json:"message_object_decoded_another_frame_before,omitempty"`
 }
 
 // expected raw reply (reference builder) for checksum steering.
@@ -42,6 +45,7 @@ func genC01(t *rapid.T) c01Case {
 	}
 	c.PlatSerial = genU16(t, "plat_serial")
 	c.Body = genBytes(t, genBodyLen(t, "bodylen"), "body")
+	c.Recycled = rapid.SampledFrom([]int{0, 0, 1, 2}).Draw(t, "recycled")
 	c.Steer = rapid.SampledFrom([]string{"", "", "", "7e", "7d"}).Draw(t, "steer")
 	if c.Steer != "" && len(c.Body) > 0 {
 		raw := c01ExpectedSpec(c).Raw()
@@ -62,6 +66,17 @@ func checkC01(c c01Case, _ *kit.Collector) kit.Result {
 	res := kit.Result{}
 	src := c.Src.Spec().Build()
 	msg := jt808.NewJTMessage()
+	if c.Recycled > 0 {
+		prior := c01OtherFrame
+		if c.Recycled == 2 {
+			prior = c02PriorFrame
+		}
+		if err := msg.Decode(append([]byte(nil), prior...)); err != nil {
+			res.Err = kit.Fail("HARNESS-ERROR prior frame rejected: %v", err)
+			return res
+		}
+		res.Labels = append(res.Labels, "recycled_message_object")
+	}
 	if err := msg.Decode(src); err != nil {
 		res.Err = kit.Fail("valid source frame %x rejected by Decode: %v", src, err)
 		return res
@@ -98,7 +113,7 @@ func checkC01(c c01Case, _ *kit.Collector) kit.Result {
 	case 0x7d:
 		chk = "chk_7d"
 	}
-	res.Labels = []string{ver, frag, long, chk, kit.L(ver, frag, long)}
+	res.Labels = append(res.Labels, ver, frag, long, chk, kit.L(ver, frag, long))
 	if c.Src.Encrypt {
 		res.Labels = append(res.Labels, "encrypt_bit")
 	}
